@@ -9,12 +9,19 @@ package first
 //@   valid self.clientMonitor != nil && self.beaconBlockRootProviders != nil
 //@   valid forall n string :: in(self.beaconBlockRootProviders, n) ==> self.beaconBlockRootProviders[n] != nil
 //@
+//@ // ---- C07: the answer is a response that some node actually gave; an error exactly when none arrived in time ----
+//@ // fromNode(x): x is (the data of) a successful answer of one of the configured nodes
+//@ // (the response is a reference to an instance of a generic type, which the contract language cannot name: int)
+//@ spec func fromNode(x int) bool
+//@
 //@ // ---- C20: the goroutines a request starts all end, whether or not anybody still listens ----
 //@
 //@ // a node's goroutine sends at most one result, on the channel it is handed
 //@ func (*Service).BeaconBlockRoot$1
 //@   thread
 //@   requires s != nil && opts != nil && provider != nil && !closed(ch)
+//@   assumes call BeaconBlockRoot#1 (r, err): err == nil ==> fromNode(r)
+//@   chaninv ch (m): fromNode(m)
 //@   exit sends() <= 1
 //@
 //@ func (*Service).BeaconBlockRoot
@@ -22,8 +29,11 @@ package first
 //@   // nstarted: the number of goroutines started so far. A goroutine is only started while the result channel it is
 //@   // handed still has room for one more result than there are goroutines already: as each goroutine sends at most
 //@   // once, no send can block, even when the requester has taken the first result (or timed out) and gone
+//@   chaninv respCh (m): fromNode(m)
 //@   ghost nstarted Int = 0
 //@   at call go#1: assert nstarted < chancap(arg3)
 //@   at call go#1: ghost nstarted = nstarted + 1
 //@   loop 1
 //@     invariant nstarted == nvisited()
+//@   ensures result1 == nil ==> fromNode(result0)
+//@   ensures result1 != nil ==> result0 == nil
